@@ -21,8 +21,8 @@ P = {
  "C05": dict(technique="runtime monitoring: cross-observer consistency rules on every snapshot of generated histories",
              text="Exploration: every snapshot produced by typed and untyped histories is checked with model-free rules relating exists/metadata/is_file/is_dir/read_dir/open_file/walk_dir (incl. absent paths, prefix-sibling names, discovered entries, walk order and uniqueness).",
              ref="§4 C05"),
- "C08": dict(technique="runtime monitoring: call-recording FileSystem wrappers around every layer + deep state comparison of lower layers",
-             text="Exploration: untyped histories + timestamp setters on overlays with 2-4 pre-populated layers (incl. nested overlays and altroot layers). A recording wrapper around every filesystem of the stack reports any mutating call reaching a lower layer and any mutating call during a pure observer; each lower layer's deep state (type, bytes, created, modified) is compared before/after every step.",
+ "C08": dict(technique="runtime monitoring: call-recording FileSystem wrappers around every layer + deep state comparison of lower layers (sync OverlayFS and, state comparison only, AsyncOverlayFS)",
+             text="Exploration: untyped histories + timestamp setters on overlays with 2-4 pre-populated layers (incl. nested overlays and altroot layers). A recording wrapper around every filesystem of the stack reports any mutating call reaching a lower layer and any mutating call during a pure observer; each lower layer's deep state (type, bytes, created, modified) is compared before/after every step. An async pass runs the same kind of history through an AsyncOverlayFS over memory/physical layers and compares every lower layer's deep state (read through the layer's own view) with its initial value after every step.",
              ref="§2.4, §4 C08"),
  "C09": dict(technique="runtime monitoring: lock-step reference-model monitor initialised with the union of generated layers",
              text="Exploration: C01's monitor on top-level overlays with 1-4 generated, conflict-free pre-populated layers; the initial snapshot must equal the layer union and every later call must obey the C01 contracts relative to it.",
